@@ -4,7 +4,13 @@ N_THOROUGH = 12000
 MODEL_SHOW = "run"
 DISAGREE_IS_VIOLATION = True   # observables are exactly what the property fixes
 HARNESS_TIMEOUT = 600
-RULE = ("fixed: 13 boundary histories (deadline = now / now-1 / now+1, id allocator at MaxReqId-1 and MaxReqId, late and "
+RULE = ("every request / notification reaches the peer in one of six ways chosen by the op `Via` (direct PID; app.Request / "
+        "app.Notify routed by node/app's default route to the API method remote.Park / remote.Note; routed by a registered route "
+        "function from a map parameter to a missing method (the peer's APIDispatcher answers 'no method') or to a notify-shaped "
+        "method (never answered); app.QuerySession; app.Kick), and 'no route target' is produced in six ways (unknown service name, "
+        "malformed route, route function yielding nothing / an unknown name, QuerySession / Kick for an unknown front); the peer "
+        "answers through the dispatcher's completion closure + Service.Response when it can; "
+        "fixed: 12 routed histories (2 per way), 13 boundary histories (deadline = now / now-1 / now+1, id allocator at MaxReqId-1 and MaxReqId, late and "
         "duplicate replies, suppressed replies, undecodable bodies, nested no-route callbacks), 1 (quick) / 4 (thorough) histories "
         "scanned by the REAL 1 s timer; exhaustive: every op sequence of length <= 3 (quick) / 4 (thorough) over an 8-op alphabet "
         "(request, re-entrant request, notify, reply ok for id 1, remote error for id 2, advance 30000, advance 1, tick) followed by "
@@ -17,7 +23,9 @@ RULE = ("fixed: 13 boundary histories (deadline = now / now-1 / now+1, id alloca
 TRUSTED_BASE = [
     "Coq 8.16.1 kernel + vm_compute (case evaluation, C01_wrap_refuted, Examples); no native_compute",
     "hand translation actorex/service/service.go (doRequestEx, AllocReqId, handleResponse, checkExpired, tryStartCheckTimer, ResponseEx) "
-    "and node/app/serviceutils.go Request (no-target branch) -> C01/Model.v, measured by this correspondence run",
+    "and node/app/serviceutils.go Request / Notify / QuerySession / Kick (routed and no-target branches) -> C01/Model.v, measured by "
+    "this correspondence run; the responding side (api.go APIDispatcher, utils.go DirectSendNotify, ResponseEx reply suppression) is "
+    "driven for real by the scripted peer but is not part of the model: to the model a routed request is a request",
     "Go harness harness/c01 (actor driver: ops as messages through the service mailbox, scripted peer service, sender middleware "
     "recording sends, closures recording callbacks), verif hook actorex/service/verif_export.go, bin/check.py JSON->Coq term printer",
     "the order in which Go's map iteration yields expired requests inside one checkExpired is taken from the implementation's own "
